@@ -11,7 +11,7 @@ HARNESSES = [dict(name="configmgr", pkg="./pkg/configmgr/", test="TestVerifC13",
 
 def route(case):
     return "configmgr_race" if case.startswith("conc ") else "configmgr"
-VARIANTS = ["repaired", "restore_unreported", "boot_unatomic", "head"]   # head = /repo HEAD (two open findings, each with a fix patch)
+VARIANTS = ["repaired"]   # = /repo HEAD: every recorded finding is fixed; a regression to an old defect is a VIOLATION
 MODEL_NEEDS_IMPL = True     # only the concurrent cases use it (linearizability search in the driver)
 RULE = ("One case = one history against a fresh ConfigManager: a registry of 2-7 recording handlers on real path "
         "patterns (scalar leaves of interfaces/vrfs/protocols/aaa, _internal no-op paths, a literal pattern shadowing "
